@@ -102,6 +102,9 @@ def do_roundtrip(e):
     kw = {}
     if e.get("base"):
         kw["base"] = e["base"]
+    kw.update(e.get("ser_kw", {}))          # serializer options (json-ld context, longturtle canon ...)
+    if fmt == "json-ld" and ("context" in kw or kw.get("auto_compact")):
+        e["str_eq"] = True
     try:
         data = guarded(lambda: g.serialize(format=fmt, **kw))
     except _Timeout:
